@@ -462,6 +462,81 @@ pub mod life {
         bits
     }
 
+    /// C11, shared mpmc handle counting WITHOUT futures (the observer-future lifecycle exhausts memory for mpmc): a symbolic
+    /// clone/drop script over 2 sender + 2 receiver handle slots; after every operation the channel must be closed exactly if
+    /// the last handle of a side is gone, observed without side effects (try_receive on an empty open channel reports Empty,
+    /// on a closed one Closed; with no receiver left, try_send must be refused as Closed).
+    pub fn mpmc_handles<M: lock_api::RawMutex + 'static, S: Src>(s: &mut S, n: usize, p: u32) -> u32 {
+        let (tx, rx) = crate::channel::shared::generic_channel::<M, Tag, B2>(2);
+        type Tx<M> = crate::channel::shared::GenericSender<M, Tag, B2>;
+        type Rx<M> = crate::channel::shared::GenericReceiver<M, Tag, B2>;
+        let mut t0: ManuallyDrop<Option<Tx<M>>> = ManuallyDrop::new(Some(tx));
+        let mut t1: ManuallyDrop<Option<Tx<M>>> = ManuallyDrop::new(None);
+        let mut r0: ManuallyDrop<Option<Rx<M>>> = ManuallyDrop::new(Some(rx));
+        let mut r1: ManuallyDrop<Option<Rx<M>>> = ManuallyDrop::new(None);
+        let mut ta = [true, false];
+        let mut ra = [true, false];
+        let mut bits = 0u32;
+        let mut step = 0;
+        while step < n && !s.exhausted() {
+            step += 1;
+            let op = s.below(4);
+            let j = s.below(2) as usize;
+            let ntx = ta[0] as u8 + ta[1] as u8;
+            let nrx = ra[0] as u8 + ra[1] as u8;
+            s.assume(ntx > 0 && nrx > 0); // stop once a side is gone: the next drop could free the state
+            if op == 0 {
+                s.assume(!ta[j]);
+                let c = (**(if ta[0] { &t0 } else { &t1 })).as_ref().unwrap().clone();
+                let dst = match j { 0 => &mut t0, _ => &mut t1 };
+                unsafe { core::ptr::write(&mut **dst, Some(c)) };
+                ta[j] = true;
+            } else if op == 1 {
+                s.assume(!ra[j]);
+                let c = (**(if ra[0] { &r0 } else { &r1 })).as_ref().unwrap().clone();
+                let dst = match j { 0 => &mut r0, _ => &mut r1 };
+                unsafe { core::ptr::write(&mut **dst, Some(c)) };
+                ra[j] = true;
+            } else if op == 2 {
+                s.assume(ta[j]);
+                let slot = match j { 0 => &mut t0, _ => &mut t1 };
+                let h = unsafe { core::ptr::read(&**slot) };
+                unsafe { core::ptr::write(&mut **slot, None) };
+                drop(h);
+                ta[j] = false;
+                if ntx > 1 { bits |= W_DROP_NONLAST_TX; } else if step > 1 { bits |= W_CLOSED_BY_LAST; }
+            } else {
+                s.assume(ra[j]);
+                let slot = match j { 0 => &mut r0, _ => &mut r1 };
+                let h = unsafe { core::ptr::read(&**slot) };
+                unsafe { core::ptr::write(&mut **slot, None) };
+                drop(h);
+                ra[j] = false;
+                if nrx > 1 { bits |= W_DROP_NONLAST_RX; } else if step > 1 { bits |= W_CLOSED_BY_LAST; }
+            }
+            let expect_closed = !(ta[0] || ta[1]) || !(ra[0] || ra[1]);
+            if (p & P11) != 0 {
+                if ra[0] || ra[1] {
+                    let r = (**(if ra[0] { &r0 } else { &r1 })).as_ref().unwrap();
+                    match r.try_receive() {
+                        Ok(t) => { core::mem::forget(t); assert!(false, "C11 shared mpmc handles: try_receive yielded a value that was never sent"); }
+                        Err(e) => assert!(e.is_closed() == expect_closed,
+                            "C11 shared mpmc handles: the channel is closed although a handle of each side is alive, or open although the last sender handle was dropped"),
+                    }
+                } else {
+                    let t = (**(if ta[0] { &t0 } else { &t1 })).as_ref().unwrap();
+                    match t.try_send(Tag(9)) {
+                        Err(crate::channel::TrySendError::Closed(v)) => core::mem::forget(v),
+                        Err(crate::channel::TrySendError::Full(v)) => { core::mem::forget(v); assert!(false, "C11 shared mpmc handles: the channel stayed open after the last receiver handle was dropped"); }
+                        Ok(()) => assert!(false, "C11 shared mpmc handles: the channel stayed open after the last receiver handle was dropped"),
+                    }
+                }
+            }
+        }
+        s.reached(bits);
+        bits
+    }
+
     /// Shared (Arc) mpmc SEND and RECEIVE futures (they take their Arc out for every poll and must put it back on Pending):
     /// straight-line scenario on a capacity-1 channel. C08 every value delivered or handed back once, C09 FIFO / capacity,
     /// C10 the parked sender is woken, C11 close semantics, C17 is_terminated().
@@ -575,6 +650,7 @@ pub mod life {
         match name {
             "shared_stream_min" => { shared_stream_min::<NL, _>(s, p); }
             "shared_mpmc_min" => { shared_mpmc_min::<NL, _>(s, p); }
+            "mpmc_handles" => { mpmc_handles::<NL, _>(s, 64, p); }
             "shared_polls" => { shared_polls::<NL, _>(s, p); }
             "shared_polls_check" => { shared_polls::<CheckLock, _>(s, p); }
             "shared_mpmc" => { shared_mpmc::<NL, _>(s, 64, p); }
@@ -606,6 +682,12 @@ pub mod life {
                 }
             };
         }
+        #[kani::proof]
+        #[kani::unwind(5)]
+        fn mpmc_handles_n3() { let b = mpmc_handles::<NL, _>(&mut KaniSrc, 3, P11); kani::cover!(b & W_CLOSED_BY_LAST != 0, "W mpmc handles: closed by the last handle after a clone/drop sequence"); }
+        #[kani::proof]
+        #[kani::unwind(6)]
+        fn mpmc_handles_n4() { let b = mpmc_handles::<NL, _>(&mut KaniSrc, 4, P11); kani::cover!(b & W_CLOSED_BY_LAST != 0, "W mpmc handles: closed by the last handle after a clone/drop sequence"); }
         #[kani::proof]
         #[kani::unwind(4)]
         fn shared_mpmc_min_c09() { let b = shared_mpmc_min::<NL, _>(&mut KaniSrc, P09); kani::cover!(b == 1, "W shared mpmc: sender parked, then served"); }
